@@ -23,6 +23,7 @@ ROOT = os.path.dirname(os.path.dirname(os.path.abspath(__file__)))
 HARNESS = os.path.join(ROOT, "harness")
 BUILD = os.path.join(ROOT, ".build")
 NCPU = os.cpu_count() or 4
+HARNESS_USED = HARNESS
 
 sys.path.insert(0, os.path.dirname(os.path.abspath(__file__)))
 from props import PROPS  # noqa: E402
@@ -44,10 +45,33 @@ def log(*a):
     print(*a, flush=True)
 
 
+REPO = os.path.abspath(os.environ.get("VERIF_REPO", "/repo"))
+
+
+def harness_dir():
+    """The harness module; for VERIF_REPO != /repo (scratch worktrees used to evaluate seeded changes) a copy whose
+    replace directive points at that tree."""
+    if REPO == "/repo":
+        return HARNESS, ""
+    tag = hashlib.sha1(REPO.encode()).hexdigest()[:8]
+    d = os.path.join(BUILD, "alt-" + tag)
+    shutil.rmtree(d, ignore_errors=True)
+    shutil.copytree(HARNESS, d, ignore=shutil.ignore_patterns("testdata"))
+    gm = os.path.join(d, "go.mod")
+    with open(gm) as f:
+        txt = f.read()
+    with open(gm, "w") as f:
+        f.write(txt.replace("=> /repo", "=> " + REPO))
+    return d, "-" + tag
+
+
 def build(race=False, cli=False):
     """(Re)build the test binary against /repo's current working tree."""
     os.makedirs(BUILD, exist_ok=True)
-    out = os.path.join(BUILD, "props.race.test" if race else "props.test")
+    global HARNESS_USED
+    hdir, tag = harness_dir()
+    HARNESS_USED = hdir
+    out = os.path.join(BUILD, ("props.race.test" if race else "props.test") + tag)
     with open(os.path.join(BUILD, "lock"), "w") as lk:
         fcntl.flock(lk, fcntl.LOCK_EX)
         # go.sum of the harness must know the repo's dependencies
@@ -55,16 +79,16 @@ def build(race=False, cli=False):
         if race:
             cmd.append("-race")
         cmd.append("./props")
-        r = subprocess.run(cmd, cwd=HARNESS, env=goenv(), stdout=subprocess.PIPE, stderr=subprocess.STDOUT, text=True)
+        r = subprocess.run(cmd, cwd=hdir, env=goenv(), stdout=subprocess.PIPE, stderr=subprocess.STDOUT, text=True)
         if r.returncode != 0:
             log("BUILD FAILED:\n" + r.stdout)
             return None, None
         os.replace(out + ".tmp", out)
         cli_out = None
         if cli:
-            cli_out = os.path.join(BUILD, "astisub-cli")
+            cli_out = os.path.join(BUILD, "astisub-cli" + tag)
             r = subprocess.run(["go", "build", "-tags", "verif", "-o", cli_out + ".tmp", "github.com/asticode/go-astisub/astisub"],
-                               cwd=HARNESS, env=goenv(), stdout=subprocess.PIPE, stderr=subprocess.STDOUT, text=True)
+                               cwd=hdir, env=goenv(), stdout=subprocess.PIPE, stderr=subprocess.STDOUT, text=True)
             if r.returncode != 0:
                 log("CLI BUILD FAILED:\n" + r.stdout)
                 return None, None
@@ -88,6 +112,9 @@ def run_check(pid, tier, seed):
     race = p.get("race", False)
     binary, cli = build(race=race, cli=p.get("cli", False))
     ev_path = os.path.join(ROOT, "evidence", pid + ".json")
+    if REPO != "/repo":
+        # evaluating a scratch tree (seeded change): never overwrite the evidence of /repo
+        ev_path = os.path.join(BUILD, "alt-evidence", pid + ".json")
     os.makedirs(os.path.dirname(ev_path), exist_ok=True)
     if binary is None:
         log("INCONCLUSIVE property=%s build failed" % pid)
@@ -108,7 +135,7 @@ def run_check(pid, tier, seed):
             "VERIF_FRAG": os.path.join(rundir, "frag%d" % i),
             "VERIF_REPLAY_OUT": os.path.join(rundir, "replay%d.json" % i),
             "VERIF_ROOT": ROOT,
-            "VERIF_REPO": "/repo",
+            "VERIF_REPO": REPO,
             "VERIF_TMP": os.path.join(rundir, "tmp%d" % i),
             "TMPDIR": os.path.join(rundir, "tmp%d" % i),
         })
@@ -122,7 +149,7 @@ def run_check(pid, tier, seed):
         e.pop("VERIF_REPLAY", None)
         out = open(os.path.join(rundir, "out%d.txt" % i), "w")
         cmd = [binary, "-test.run", "^%s$" % p["test"], "-test.timeout", "0", "-test.count", "1"]
-        procs.append((subprocess.Popen(cmd, cwd=os.path.join(HARNESS, "props"), env=e, stdout=out, stderr=subprocess.STDOUT), out))
+        procs.append((subprocess.Popen(cmd, cwd=os.path.join(HARNESS_USED, "props"), env=e, stdout=out, stderr=subprocess.STDOUT), out))
     deadline = t0 + timeout
     timed_out = False
     codes = []
@@ -210,16 +237,16 @@ def run_check(pid, tier, seed):
     fuzz = p.get("fuzz")
     fuzz_stats = {}
     if fuzz and tier == "thorough" and not violations and status == 0:
-        fdir = os.path.join(HARNESS, "props", "testdata", "fuzz")
+        fdir = os.path.join(HARNESS_USED, "props", "testdata", "fuzz")
         for target in fuzz["targets"]:
             shutil.rmtree(os.path.join(fdir, target), ignore_errors=True)
             rp = os.path.join(rundir, "replay-%s.json" % target)
             e = goenv()
-            e.update({"VERIF_ROOT": ROOT, "VERIF_REPLAY_OUT": rp, "VERIF_REPO": "/repo", "TMPDIR": os.path.join(rundir, "tmp0")})
+            e.update({"VERIF_ROOT": ROOT, "VERIF_REPLAY_OUT": rp, "VERIF_REPO": REPO, "TMPDIR": os.path.join(rundir, "tmp0")})
             e.pop("VERIF_FRAG", None)
             cmd = ["go", "test", "./props", "-run", "^$", "-fuzz", "^%s$" % target, "-fuzztime", "%ds" % fuzz["seconds"], "-tags", "verif"]
             try:
-                r = subprocess.run(cmd, cwd=HARNESS, env=e, stdout=subprocess.PIPE, stderr=subprocess.STDOUT, text=True, timeout=fuzz["seconds"] * 3 + 300)
+                r = subprocess.run(cmd, cwd=HARNESS_USED, env=e, stdout=subprocess.PIPE, stderr=subprocess.STDOUT, text=True, timeout=fuzz["seconds"] * 3 + 300)
                 out, rc = r.stdout, r.returncode
             except subprocess.TimeoutExpired as ex:
                 out, rc = (ex.stdout or b"").decode(errors="replace") if isinstance(ex.stdout, bytes) else (ex.stdout or ""), -9
@@ -328,7 +355,8 @@ def run_replay(pid, path):
     tmp = os.path.join(BUILD, "replay-tmp-%d" % os.getpid())
     os.makedirs(tmp, exist_ok=True)
     e["TMPDIR"] = tmp
-    r = subprocess.run([binary, "-test.run", "^TestReplay$", "-test.count", "1", "-test.v"], cwd=os.path.join(HARNESS, "props"), env=e,
+    e["VERIF_REPO"] = REPO
+    r = subprocess.run([binary, "-test.run", "^TestReplay$", "-test.count", "1", "-test.v"], cwd=os.path.join(HARNESS_USED, "props"), env=e,
                        stdout=subprocess.PIPE, stderr=subprocess.STDOUT, text=True, timeout=600)
     shutil.rmtree(tmp, ignore_errors=True)
     if r.returncode == 0:
